@@ -195,6 +195,53 @@ def returns_only(fn, q, value, edge_ok=None, src=None):
     return seen
 
 
+def returned_values(fn, q, src=None, edge_ok=None):
+    """what the returns reachable from point q yield, per path: a list of (return node, value) where value is an int (a
+    constant, directly or through a result variable), an expression node id given as ("expr", node) — the returned
+    expression itself or the right-hand side the result variable was last assigned on that path — or None (unknown)"""
+    cfg = fn.cfg
+    inits = [()]
+    if src is not None:
+        cfg.reach([cfg.entry])
+        if not hasattr(cfg, "_entry_states"):
+            cfg._entry_states = cfg.reach([cfg.entry], want_states=True)[1]
+        sts = cfg._entry_states.get(src, [])
+        if sts:
+            inits = []
+            for st in sts:
+                fs = []
+                for k_, v_ in st.items():
+                    if isinstance(k_, tuple):
+                        fs.append((("def", k_[1]), v_, frozenset((k_[1],))))
+                    else:
+                        fs.append((("const", k_), v_, frozenset((k_,))))
+                inits.append(tuple(fs) or (("none", 0, frozenset()),))
+    out = []
+    for init in inits:
+        pts, states = cfg.reach([q], edge_ok=edge_ok, want_states=True, init_facts=init)
+        for r in fn.all(kind="ReturnStmt"):
+            p = cfg.pt(r)
+            if p not in pts or "val" not in fn.nodes[r] or fn.nodes[r].get("inl_ret"):
+                continue
+            v = fn.nodes[r]["val"]
+            if fn.cv(v) is not None:
+                out.append((r, fn.cv(v)))
+                continue
+            j = fn.strip(v)
+            n = fn.nodes[j]
+            if n["k"] == "DeclRefExpr" and n.get("dk") == "local":
+                for st in states.get(p, []):
+                    if n["d"] in st:
+                        out.append((r, st[n["d"]]))
+                    elif ("def", n["d"]) in st:
+                        out.append((r, ("expr", st[("def", n["d"])])))
+                    else:
+                        out.append((r, None))
+            else:
+                out.append((r, ("expr", v)))
+    return out
+
+
 def counted_loops(fn):
     """loops that count a local up by one: dict(loop, var, first, op, bound, body) for `for (T i = first; i OP bound; i++)`
     and for the same loop written with while (initialisation before the loop, increment at the end of the body).
